@@ -48,6 +48,18 @@ var letterVerbs = func() []string {
 	return out
 }()
 
+// wideVerbs are non-ASCII verb runes whose low byte is an ASCII letter (a verb table indexed by byte(verb)
+// takes U+0175 for 'u'): a Format method is called with any rune, and only the documented letters select a form.
+var wideVerbs = func() []string {
+	var out []string
+	for c := 'a'; c <= 'z'; c++ {
+		for _, hi := range []rune{0x100, 0x400, 0x2000, 0x10000} {
+			out = append(out, "%"+string(hi+c), "%"+string(hi+c-32))
+		}
+	}
+	return out
+}()
+
 // errTypeHas reports whether some error in err's chain has a dynamic type whose name starts with prefix
 // (e.g. "*date.ParseError["): the typed-error check for instantiations the harness cannot name one by one.
 func errTypeHas(err error, prefix string) bool {
